@@ -853,7 +853,7 @@ type NotNode struct {
 }
 
 func (n *NotNode) String() string {
-	return "not " + n.Arg.String()
+	return "not " + operand(n.Arg)
 }
 
 func (n *NotNode) Children() []Node {
@@ -866,7 +866,8 @@ type NegateNode struct {
 }
 
 func (n *NegateNode) String() string {
-	return "-" + n.Arg.String()
+	// the space keeps "- 5" (a negated 5) apart from the literal "-5"
+	return "- " + operand(n.Arg)
 }
 
 func (n *NegateNode) Children() []Node {
@@ -880,7 +881,7 @@ type BinaryOpNode struct {
 }
 
 func (n *BinaryOpNode) String() string {
-	return n.Arg1.String() + " " + n.Name + " " + n.Arg2.String()
+	return operand(n.Arg1) + " " + n.Name + " " + operand(n.Arg2)
 }
 
 func (n *BinaryOpNode) Children() []Node {
@@ -910,7 +911,22 @@ type TernNode struct {
 }
 
 func (n *TernNode) String() string {
-	return n.Arg1.String() + "?" + n.Arg2.String() + ":" + n.Arg3.String()
+	return operand(n.Arg1) + " ? " + operand(n.Arg2) + " : " + operand(n.Arg3)
+}
+
+// operand returns the source text of an operator's operand. An operand that is
+// itself an operator expression is parenthesised, so that the printed text
+// parses back to the same tree whatever the operators' precedences:
+// (1 + 2) * 3 prints as "(1 + 2) * 3", not "1 + 2 * 3".
+func operand(n Node) string {
+	switch n.(type) {
+	case *NotNode, *NegateNode, *TernNode,
+		*MulNode, *DivNode, *ModNode, *AddNode, *SubNode,
+		*EqNode, *NotEqNode, *GtNode, *GteNode, *LtNode, *LteNode,
+		*OrNode, *AndNode, *ElvisNode:
+		return "(" + n.String() + ")"
+	}
+	return n.String()
 }
 
 func (n *TernNode) Children() []Node {
